@@ -31,7 +31,8 @@ type PrettyPrintOption func(*PrettyPrintOptions)
 // WithSpaces creates an option with the specified number of spaces for indentation
 func WithSpaces(count int) PrettyPrintOption {
 	return func(opts *PrettyPrintOptions) {
-		opts.IndentString = strings.Repeat(" ", count)
+		// strings.Repeat panics on a negative count
+		opts.IndentString = strings.Repeat(" ", max(count, 0))
 	}
 }
 
